@@ -280,6 +280,47 @@ theorem decode_sound_v1 (H1 : Mac) (key : Bytes) (name : List Nat) (value : Byte
               · simp at h
   · simp at h
 
+/-- shape of an accepted format-2 string: it *is* `signed ++ H2 key signed` — the signature is the tail of the
+value and covers everything before it (given only that digests are not empty). -/
+theorem accepted_shape_v2 (H2 : Mac) (hH : ∀ k m, H2 k m ≠ []) (secret : Secret) (name : List Nat) (value : Bytes)
+    (maxAge now : Int) (x : Bytes) (h : decodeV2 H2 secret name value maxAge now = .some x) :
+    ∃ signed key, value = signed ++ H2 key signed := by
+  obtain ⟨f, key, ts, hf, _, hsig, _⟩ := decode_sound_v2 H2 secret name value maxAge now x h
+  obtain ⟨k, hk⟩ := decodeFieldsV2_sig_suffix value f hf
+  have hne : f.sig ≠ [] := by rw [hsig]; exact hH _ _
+  have := signedPart_append_sig value f.sig k hk hne
+  exact ⟨signedPart value f.sig, key, by rw [← hsig]; exact this.symm⟩
+
+/-- **decode_sound**: whatever `decode_signed_value` accepts is either a format-2 string satisfying
+`decode_sound_v2` (and `min_version ≤ 2`) or a format-1 string satisfying `decode_sound_v1` under a single-key
+secret (and `min_version ≤ 1`). -/
+theorem decode_sound (H1 H2 : Mac) (secret : Secret) (name : List Nat) (value : Bytes) (maxAge now : Int)
+    (minVersion : Nat) (x : Bytes) (h : decode H1 H2 secret name value maxAge now minVersion = .some x) :
+    (getVersion value = 2 ∧ minVersion ≤ 2 ∧ decodeV2 H2 secret name value maxAge now = .some x)
+    ∨ (getVersion value = 1 ∧ minVersion ≤ 1 ∧ ∃ k, secret = .single k ∧ decodeV1 H1 k name value maxAge now = .some x) := by
+  unfold decode at h
+  split at h
+  · simp at h
+  · rename_i hmv
+    split at h
+    · simp at h
+    · simp only at h
+      split at h
+      · simp at h
+      · rename_i hlt
+        split at h
+        · rename_i hv1
+          right
+          split at h
+          · simp at h
+          · rename_i k
+            exact ⟨hv1, by omega, k, rfl, h⟩
+        · split at h
+          · rename_i hv2
+            left
+            exact ⟨hv2, by omega, h⟩
+          · simp at h
+
 /-- a format-2 value presented under a different (encoded) name is rejected — no assumption on `H2`. -/
 theorem wrong_name_rejected_v2 (H2 : Mac) (secret : Secret) (key : Bytes) (kvn now : Nat) (name name' : List Nat)
     (b64 : Bytes) (maxAge now' : Int) (hne : utf8 name ≠ utf8 name')
